@@ -3,6 +3,7 @@ package main
 // Mapping of Go types to SMT sorts, datatype declarations, type invariants.
 
 import (
+	"go/token"
 	"fmt"
 	"go/types"
 	"sort"
@@ -160,9 +161,21 @@ func pow2(w int) string {
 	panic("pow2")
 }
 
+// rankType carries the uninterpreted sort Rank (position of a byte string in lexicographic order) through
+// ghost variables, which are typed with Go types.
+var rankType = types.NewNamed(types.NewTypeName(token.NoPos, nil, "$Rank", nil), types.Typ[types.Int], nil)
+
+func isRankType(t types.Type) bool {
+	n, ok := t.(*types.Named)
+	return ok && n.Obj().Name() == "$Rank"
+}
+
 func (sc *sortCtx) sortOf(t types.Type) string {
 	if t == nil {
 		return "Int"
+	}
+	if isRankType(t) {
+		return "Rank"
 	}
 	switch u := t.Underlying().(type) {
 	case *types.Basic:
@@ -233,7 +246,7 @@ func (sc *sortCtx) fieldSel(structSort string, f *types.Var) string {
 // decls emits datatype declarations.
 func (sc *sortCtx) decls() string {
 	var b strings.Builder
-	b.WriteString("(declare-sort Str 0)\n(declare-fun gs.len (Str) Int)\n(declare-fun gs.at (Str Int) Int)\n")
+	b.WriteString("(declare-sort Rank 0)\n(declare-sort Str 0)\n(declare-fun gs.len (Str) Int)\n(declare-fun gs.at (Str Int) Int)\n")
 	b.WriteString("(declare-datatypes ((Slice 0)) (((mkSlice (s.ref Int) (s.off Int) (s.len Int) (s.cap Int)))))\n")
 	for _, n := range sc.structOrd {
 		u := sc.structs[n]
@@ -314,7 +327,7 @@ func (sc *sortCtx) zero(t types.Type) string {
 
 // typeInv returns constraints every value of the type satisfies.
 func (sc *sortCtx) typeInv(term string, t types.Type, depth int) []string {
-	if t == nil || depth > 3 {
+	if t == nil || depth > 3 || isRankType(t) {
 		return nil
 	}
 	switch u := t.Underlying().(type) {
